@@ -180,9 +180,8 @@ def rowLine (r : Life.Row) : String :=
 
 /-- C17: whole-row equality of samply's thread entries with the eager reading `Life` of the record history.
 Applies to default options and to every history that respects the FORK / EXEC clauses of the record grammar
-(`Life.grammarOk`) — orphan thread EXITs included: there the specification says "no entry", and a failure whose
-output is exactly what the on-demand creation in `handle_exit` produces (`Life.runLegacy`) carries the reason tag
-of the candidate finding. -/
+(`Life.grammarOk`) — EXITs of threads whose process is not known included: the specification says "no entry"
+(repaired by 8ede2c85; no excuse for the old behaviour). -/
 def judgeC17 (ops impl : List String) : Bool × String :=
   match parse ops with
   | none => (false, "bad-op")
@@ -197,11 +196,8 @@ def judgeC17 (ops impl : List String) : Bool × String :=
     if want == got then (true, "ok") else
       let missing := want.filter (fun w => !got.contains w)
       let extra := got.filter (fun g => !want.contains g)
-      let legacy := ((Life.rows (Life.runLegacy cfg.ref rs)).map rowLine).mergeSort strLe
-      let tag := if !Life.orphanFree cfg.ref rs && legacy == got then "[phantom-process-on-thread-exit] " else ""
-      -- (the leading word is the reason class bin/check keeps while shrinking: a failure must not shrink into
-      -- the tagged one)
-      (false, s!"{if tag == "" then "rows: " else tag}thread entries differ from the record history: expected-but-absent {missing.take 2}; unexpected {extra.take 2}")
+      -- (the leading word is the reason class bin/check keeps while shrinking)
+      (false, s!"rows: thread entries differ from the record history: expected-but-absent {missing.take 2}; unexpected {extra.take 2}")
 
 /-! ### C02 / C14: stacks -/
 
